@@ -52,6 +52,13 @@ func (p c10) Run(runseed uint64, tier string, acc *Acc) []*core.Violation {
 	if tier != "thorough" {
 		o.ManyPct = 0
 	}
+	if r.Chance(1, 200) {
+		// a footer beyond 64 KiB: hundreds of row groups of a 16-column shape (call positions are sampled)
+		o.Shapes = []string{"flat", "flatb"}
+		o.ManyPct, o.ManyMax = 100, 260
+		o.LargePct = 0
+		acc.Inc("class/huge-footer")
+	}
 	o.GiantPct = 10 // one page body beyond 1 MiB: few source calls as well
 	o.HugePct = 6 // huge-value files are short histories: few source calls, cheap to enumerate
 	f, ok := genFile(r, o)
